@@ -178,3 +178,94 @@ func (r *rtcStrategy) Pick(s *Sched, prev *Task, site string, obj interface{}, r
 	}
 	return def
 }
+
+// ---- duel: race-directed scheduling ---------------------------------------------
+
+type duelStrategy struct {
+	rng        *RNG
+	frozen     *Task
+	frozenSite string
+	frozenAge  int
+	a, b       *Task
+	left       int
+	k          int
+}
+
+// NewDuel is an active, race-directed strategy (in the spirit of RaceFuzzer):
+// a task that reaches a shared-state site is, with probability 1/2, frozen
+// there while the others run; as soon as another task reaches a shared-state
+// site of the same source file, the two are alternated at every yield for the
+// next k yields - which walks both through the statements around their
+// accesses to the same state in lock step. Nothing is assumed about which
+// sites conflict; the freeze is given up after a while.
+func NewDuel(rng *RNG, k int) Strategy { return &duelStrategy{rng: rng, k: k} }
+
+func (d *duelStrategy) Name() string { return fmt.Sprintf("duel(%d)", d.k) }
+
+func siteFile(site string) string {
+	for i := len(site) - 1; i >= 0; i-- {
+		if site[i] == ':' {
+			return site[:i]
+		}
+	}
+	return site
+}
+
+//go:norace
+func has(runnable []*Task, t *Task) bool {
+	for _, x := range runnable {
+		if x == t {
+			return true
+		}
+	}
+	return false
+}
+
+//go:norace
+func (d *duelStrategy) Pick(s *Sched, prev *Task, site string, obj interface{}, runnable []*Task, def *Task) *Task {
+	if prev == nil {
+		return runnable[d.rng.Intn(len(runnable))]
+	}
+	// a duel in progress: alternate the two at every yield
+	if d.left > 0 {
+		d.left--
+		other := d.a
+		if prev == d.a {
+			other = d.b
+		}
+		if has(runnable, other) {
+			return other
+		}
+		if has(runnable, prev) {
+			return prev
+		}
+		d.left = 0
+		return def
+	}
+	shared := isWindowSite(site)
+	if d.frozen != nil {
+		d.frozenAge++
+		if prev != d.frozen && shared && has(runnable, d.frozen) && has(runnable, prev) && siteFile(site) == siteFile(d.frozenSite) {
+			d.a, d.b, d.left = d.frozen, prev, d.k
+			d.frozen = nil
+			return d.a
+		}
+		if d.frozenAge > 400 || !has(runnable, d.frozen) || len(runnable) == 1 {
+			d.frozen = nil
+			return def
+		}
+		// keep the frozen task parked
+		if def != d.frozen {
+			return def
+		}
+		return pickOther(d.rng, runnable, d.frozen)
+	}
+	if shared && len(runnable) > 1 && has(runnable, prev) && d.rng.Chance(1, 2) {
+		d.frozen, d.frozenSite, d.frozenAge = prev, site, 0
+		return pickOther(d.rng, runnable, prev)
+	}
+	if def != prev {
+		return runnable[d.rng.Intn(len(runnable))]
+	}
+	return def
+}
